@@ -133,14 +133,14 @@ int ops_gen_c18(int argc, char **argv, FILE *out) {
         asn_dec_rval_t rv = asn_decode(0, syn, cur_td, &st, b, len);
         fprintf(out, "%s %zu ", gen_rc_name(rv.code), rv.consumed);
         if(rv.code == RC_OK && st) {
-            /* print + DER + CANONICAL-XER re-encode of the decoded value (asn_check_constraints is left out: the emitted
+            /* print + DER + BASIC-XER re-encode of the decoded value (asn_check_constraints is left out: the emitted
              * checker of `INTEGER (0..MAX)`-like constraints recurses forever on the unchanged tree, another property) */
             static FILE *devnull;
             if(!devnull) devnull = fopen("/dev/null", "w");
             rf_dump(cur_td, st, out);
             asn_fprint(devnull, cur_td, st);
             asn_encode(0, ATS_DER, cur_td, st, sink_null, 0);
-            asn_encode(0, ATS_CANONICAL_XER, cur_td, st, sink_null, 0);
+            asn_encode(0, ATS_BASIC_XER, cur_td, st, sink_null, 0);   /* not CANONICAL: SET OF scratch leak on element failure is F21 (C14) */
         } else fputc('-', out);
         ASN_STRUCT_FREE(*cur_td, st);
         free(b);
